@@ -182,7 +182,21 @@ def run(chk):
     raw_texts = [l for _, l in K.read_corpus('c10_scan.txt')]
     if raw_texts:
         rs = K.run(exes[0], ['rawscan ' + h for h in raw_texts])
-        for h, d in zip(raw_texts, rs):
+        rc_m, out_m, _ = K.run_model(exes[2], ['rawscan ' + h for h in raw_texts])
+        rsm = [K.fields(l) for l in out_m] + [{}] * len(raw_texts)
+        for h, d, dm in zip(raw_texts, rs, rsm):
+            # hand-written text: the model scanner accepts iff MIR_scan_string accepts, and builds the same module
+            if 'CRASH' not in d and 'RS' in d and 'RS' in dm:
+                if (d['RS'] == 'ok') != (dm['RS'] == 'ok'):
+                    chk.finding('tie:scanner-accepts:rawtext:' + hashlib.sha1(h.encode()).hexdigest()[:8],
+                                dict(text=bytes.fromhex(h).decode('latin-1'), impl=d.get('RS'), model=dm.get('RS')),
+                                'C10 tie:scanner-accepts: model scanner and MIR_scan_string disagree on hand-written text: %s vs %s'
+                                % (dm.get('RS'), d.get('RS')), no_input=True)
+                elif d['RS'] == 'ok' and d.get('T2') != dm.get('T2'):
+                    chk.finding('tie:scanner:rawtext:' + hashlib.sha1(h.encode()).hexdigest()[:8],
+                                dict(text=bytes.fromhex(h).decode('latin-1'), impl=d.get('T2'), model=dm.get('T2')),
+                                'C10 tie:scanner: model scanner and MIR_scan_string build different modules from hand-written text',
+                                no_input=True)
             chk.count('rawscan ' + h, nontrivial=True)
             chk.dist('erroneous_text', 'rejected with an error list' if d.get('RS', '').startswith('ERR') else
                      'accepted' if d.get('RS') == 'ok' else 'crash')
